@@ -5,10 +5,10 @@
    repair of its class is switched on. *)
 From V Require Import CF.Soundness CF.SemDecide CF.SemDecideProofs CF.Oracle.
 
-Definition only_A := {| fixA := true; fixB := false; fixC := false; fixD := false; fixE := false |}.
-Definition only_B := {| fixA := false; fixB := true; fixC := false; fixD := false; fixE := false |}.
-Definition only_C := {| fixA := false; fixB := false; fixC := true; fixD := false; fixE := false |}.
-Definition only_D := {| fixA := false; fixB := false; fixC := false; fixD := true; fixE := false |}.
+Definition only_A := {| fixA := true; fixB := false; fixC := false; fixD := false; fixE := false; fixF := false |}.
+Definition only_B := {| fixA := false; fixB := true; fixC := false; fixD := false; fixE := false; fixF := false |}.
+Definition only_C := {| fixA := false; fixB := false; fixC := true; fixD := false; fixE := false; fixF := false |}.
+Definition only_D := {| fixA := false; fixB := false; fixC := false; fixD := true; fixE := false; fixF := false |}.
 
 (* function f() { do try { throw 1; } finally { continue; } while (v2); v1; } *)
 Definition wA_c10 : program :=
@@ -41,6 +41,22 @@ Definition wD_case_body := SCons (STry 36 40 (SCons (SThrow 42 (EIdent 3)) SNil)
 Definition wD_case_cases := CCons 28 (Some ELit) false wD_case_body (CCons 68 (Some ELit) false (SCons (SExpr 76 (ECall 999)) SNil) CNil).
 Definition wD_case : program :=
   {| p_getter := false; p_start := 0; p_pb := 13; p_body := SCons (SSwitch 15 wD_case_cases) SNil |}.
+
+Definition only_F := {| fixA := false; fixB := false; fixC := false; fixD := false; fixE := false; fixF := true |}.
+(* function f() { try { while ((v1(), true)) { } } catch (e) { v2; } } *)
+Definition wF_c10 : program :=
+  {| p_getter := false; p_start := 0; p_pb := 13; p_body := (SCons (STry 15 19 (SCons (SWhile 21 (CSeq (ECall 1) true) (SBlock 42 SNil)) SNil) (Some (48, 58)) (SCons (SExpr 60 (EIdent 2)) SNil) None SNil) SNil) |}.
+(* function f() { try { do { } while ((v1(), true)); } catch (e) { v2; } } *)
+Definition wF_c10_do : program :=
+  {| p_getter := false; p_start := 0; p_pb := 13; p_body := (SCons (STry 15 19 (SCons (SDoWhile 21 (SBlock 24 SNil) (CSeq (ECall 1) true)) SNil) (Some (52, 62)) (SCons (SExpr 64 (EIdent 2)) SNil) None SNil) SNil) |}.
+(* ({get a() { try { while ((v1(), true)) { } } catch (e) { } }}) *)
+Definition wF_getter : program :=
+  {| p_getter := true; p_start := 2; p_pb := 10; p_body := (SCons (STry 12 16 (SCons (SWhile 18 (CSeq (ECall 1) true) (SBlock 39 SNil)) SNil) (Some (45, 55)) SNil None SNil) SNil) |}.
+(* function f() { switch (d) { case 0: try { while ((v1(), true)) { } } catch (e) { } case 1: v999(); } } *)
+Definition wF_case_body := SCons (STry 36 40 (SCons (SWhile 42 (CSeq (ECall 1) true) (SBlock 63 SNil)) SNil) (Some (69, 79)) SNil None SNil) SNil.
+Definition wF_case_cases := CCons 28 (Some ELit) false wF_case_body (CCons 83 (Some ELit) false (SCons (SExpr 91 (ECall 999)) SNil) CNil).
+Definition wF_case : program :=
+  {| p_getter := false; p_start := 0; p_pb := 13; p_body := SCons (SSwitch 15 wF_case_cases) SNil |}.
 
 Definition c10_witness (p : program) (pi : N) (only : fixes) : Prop :=
   wf p /\ In pi (no_unreachable faithful p) /\ prog_enters p pi /\ c10_violations only p = [].
@@ -76,6 +92,20 @@ Theorem C11_getter_refuted_D : getter_witness wD_getter only_D. Proof. getter_wi
 Theorem C11_case_refuted_C : case_witness wC_case 15 wC_case_cases wC_case_body only_C. Proof. case_wit. Qed.
 Theorem C11_case_refuted_D : case_witness wD_case 15 wD_case_cases wD_case_body only_D. Proof. case_wit. Qed.
 
+Theorem C10_refuted_F : c10_witness wF_c10 60 only_F. Proof. c10_wit. Qed.
+Theorem C10_refuted_F_do : c10_witness wF_c10_do 64 only_F. Proof. c10_wit. Qed.
+Theorem C11_getter_refuted_F : getter_witness wF_getter only_F. Proof. getter_wit. Qed.
+Theorem C11_case_refuted_F : case_witness wF_case 15 wF_case_cases wF_case_body only_F. Proof. case_wit. Qed.
+
+(* the same witnesses against the code as it was right before the fix commit F (A, B, D, E applied) *)
+Definition before_F := {| fixA := true; fixB := true; fixC := false; fixD := true; fixE := true; fixF := false |}.
+Theorem C10_refuted_right_before_fix_F :
+  wf wF_c10 /\ fn_stmt_safe wF_c10 /\ In 60 (no_unreachable before_F wF_c10) /\ prog_enters wF_c10 60 /\ no_unreachable current wF_c10 = [].
+Proof.
+  split; [vm_compute; reflexivity|]. split; [vm_compute; reflexivity|]. split; [vm_compute; tauto|].
+  split; [apply prog_enters_iff; vm_compute; reflexivity | vm_compute; reflexivity].
+Qed.
+
 Theorem C10_refuted : ~ C10_holds faithful.
 Proof.
   intros H. destruct C10_refuted_A as [Hwf [Hin [Hent _]]]. exact (H _ _ Hwf Hin Hent).
@@ -99,3 +129,7 @@ Print Assumptions C10_refuted_B.
 Print Assumptions C10_refuted_C.
 Print Assumptions C10_refuted_D.
 Print Assumptions C11_case_refuted_D.
+Print Assumptions C10_refuted_F.
+Print Assumptions C11_getter_refuted_F.
+Print Assumptions C11_case_refuted_F.
+Print Assumptions C10_refuted_right_before_fix_F.
